@@ -12,16 +12,22 @@ CONSTANTS Depth,
           LiteParams,   \* parameters exercised with a small alphabet (isolation)
           GenConns,     \* connections that start unsubscribed and activate during the history
           GenDefaults,  \* default values explored (subset of Vals)
-          GenLiteOmit   \* suppression windows explored for the LiteParams
+          GenLiteOmit,  \* suppression windows explored for the LiteParams
+          GenExtra      \* operation groups added to the alphabet: subset of {"At", "Nest", "Deact", "Untouched"}
 VARIABLE hist
 
-Obs == [c |-> [p \in Params |-> CV(cache'[p])], o |-> out']
+Obs == [c |-> [p \in Params |-> CV(cache'[p])], w |-> [p \in Params |-> View(cache'[p])], o |-> out']
 
 (* <<offered, reported>> pairs used for Write: the driver confirms, or reports another value *)
 WritePairs == {<<v, v>> : v \in Vals} \cup {<<"a", "b">>}
 Alphabet ==
-    UNION {{op \in OpsOf(p) : (op.a = "Write" => <<op.x, op.y>> \in WritePairs) /\ op.a # "AssignInvalid"}
+    UNION {{op \in OpsOf(p) : /\ (op.a = "Write" => <<op.x, op.y>> \in WritePairs)
+                              /\ op.a # "AssignInvalid"
+                              /\ (op.a = "Untouched" => "Untouched" \in GenExtra)}
            : p \in FullParams} \cup
+    UNION {{op \in AtOps(p) : "At" \in GenExtra /\ op.x \in {"a", "e1"}} : p \in FullParams} \cup
+    UNION {{op \in NestOps(p) : "Nest" \in GenExtra /\ op.x \in {"a", "e1"}} : p \in FullParams} \cup
+    {op \in DeactOps : "Deact" \in GenExtra /\ op.p \in GenConns} \cup
     UNION {{op \in OpsOf(p) : op.a = "ReadOk" /\ op.x = "a"} : p \in LiteParams} \cup
     {op \in ActOps : op.p \in GenConns}
 TickOp(n) == [a |-> "Tick", p |-> "-", x |-> "-", y |-> "-", n |-> n]
@@ -31,7 +37,7 @@ GInit == /\ Init
          /\ \A p \in Params : cache[p].val \in GenDefaults
          /\ \A p \in LiteParams : omit[p] \in GenLiteOmit
          /\ hist = <<[op |-> [a |-> "Init", p |-> "-", x |-> "-", y |-> "-", n |-> 0],
-                      omit |-> omit, sub |-> sub, nodefault |-> NoDefault,
+                      omit |-> omit, sub |-> sub, nodefault |-> NoDefault, hidden |-> hidden, mod2 |-> Mod2,
                       c |-> [p \in Params |-> CV(cache[p])]]>>
 GNext == \/ \E op \in Alphabet : Do(op, now) /\ now' = now /\ hist' = Append(hist, [op |-> op] @@ Obs)
          \/ \E n \in 1 .. 2 : Tick(n) /\ hist' = Append(hist, [op |-> TickOp(n)] @@ Obs)
@@ -40,5 +46,5 @@ GSpec == GInit /\ [][GNext]_<<vars, hist>>
 Bound == TLCGet("level") <= Depth /\ now <= MaxNow
 EmitMax == (TLCGet("level") = Depth + 1) => PrintT(<<"BEH", ToJson(hist)>>)
 EmitStep == PrintT(<<"BEH", ToJson(hist')>>)
-AbstractView == <<cache, omit, now, sub, seen>>
+AbstractView == <<cache, omit, hidden, now, sub, seen>>
 =============================================================================
